@@ -25,7 +25,14 @@ func (c04) Required() []string {
 	return []string{"images_process_death", "images_partial_write", "images_power_loss", "batches_multi_flush", "batches_sync", "restarts", "point"}
 }
 
-func (c04) CaseBudget(string) time.Duration { return 900 * time.Second }
+func (c04) CaseBudget(tier string) time.Duration {
+	// measured: the heaviest thorough case needs ~12 min of one worker on an idle machine and
+	// more than 15 under load; a watchdog firing is only ever inconclusive or a reproduced hang
+	if tier == "thorough" {
+		return 3600 * time.Second
+	}
+	return 900 * time.Second
+}
 
 func (c04) Cases(tier string, seed uint64) []core.Case {
 	n := 16
